@@ -55,4 +55,38 @@ theorem hold_step (p : Params K) (t : Tid) (g : G K V) (l : L K V) (c : Choice K
     simp only [Option.some.injEq, reduceCtorEq, Prod.mk.injEq] at hs <;> obtain ⟨rfl, rfl⟩ := hs <;>
     simp_all [holdsBucket, holdMeasure, callWait, callResize] <;> omega
 
+/-! ### `resizeMu` -/
+
+def muMeasure (l : L K V) : Nat :=
+  match l.pc with
+  | .rzClearFlag => 3
+  | .rzBroadcast => 2
+  | .wfChk => 2
+  | .rzMuUnlock | .wfMuUnlock => 1
+  | _ => 0
+
+/-- the holder of `resizeMu` is never blocked -/
+theorem mu_holder_enabled (p : Params K) (t : Tid) (g : G K V) (l : L K V) (c : Choice K V) (hw : WF l)
+    (hh : holdsMu l.pc = true) : (tstep p t g l c).isSome = true := by
+  refine tstep_isSome p t g l c hw ?_ ?_ ?_ ?_ ?_ ?_
+  · intro hpc; simp [holdsMu, hpc] at hh
+  · intro hpc; simp [holdsMu, hpc] at hh
+  · intro hpc; simp [holdsMu, hpc] at hh
+  · intro hpc; simp [holdsMu, hpc] at hh
+  · intro hpc; rcases hpc with hpc | hpc | hpc <;> simp [holdsMu, hpc] at hh
+  · intro hpc; simp [holdsMu, hpc] at hh
+
+/-- each step of the holder of `resizeMu` releases it (unlock, or the wait of the condition variable) or keeps it with
+a smaller measure -/
+theorem mu_hold_step (p : Params K) (t : Tid) (g : G K V) (l : L K V) (c : Choice K V) (g' : G K V) (l' : L K V)
+    (hh : holdsMu l.pc = true) (hs : tstep p t g l c = some (g', l')) :
+    holdsMu l'.pc = false ∨ (holdsMu l'.pc = true ∧ muMeasure l' < muMeasure l) := by
+  have hP := (popCont_pc l).1
+  cases hpc : l.pc <;> simp only [holdsMu, hpc, reduceCtorEq] at hh <;>
+    simp only [tstep, hpc] at hs <;> (repeat' split at hs) <;>
+    simp only [Option.some.injEq, reduceCtorEq, Prod.mk.injEq] at hs <;> obtain ⟨rfl, rfl⟩ := hs <;>
+    first
+    | (left; rcases hP with h | h | h <;> rw [h] <;> rfl)
+    | simp_all [holdsMu, muMeasure]
+
 end Proofs.ProtoHold
